@@ -1,9 +1,9 @@
 CONSTANTS
-  KDoms <- KDomsTriples
+  KDoms <- KDomsPurge
   KMax = 1
   MaxSteps = 3
   WithObs = FALSE
-  PurgeByKey = FALSE
+  PurgeByKey = TRUE
   PurgeLast = FALSE
   Kinds = {"pos", "fail", "cut", "ask"}
 INIT Init
